@@ -1064,9 +1064,10 @@ def control(chk, rejected, what):
 def comparator_controls(chk, behs, widgets_of):
     """Corrupt the EXPECTATION of a behaviour; the replay comparison must flag it."""
     def pick(pred):
-        for b in behs:
-            if pred(b):
-                return copy.deepcopy(b)
+        cand = [b for b in behs if pred(b)]
+        if cand:                        # the cheapest donor: fewest figures and redraws, then fewest hook invocations
+            return copy.deepcopy(min(cand, key=lambda b: (sum(h["fig"] + len(h["draw"]) for h in b["ev"]), len(b["ev"]),
+                                                          json.dumps(b["cfg"], sort_keys=True))))
         if chk.violations:
             return None
         raise common.MachineryError("no donor behaviour for a negative control")
@@ -1209,6 +1210,28 @@ def _run(chk, tier, seed, quick, rng, info, pool):
                 tlc_model, small, False, ["ElapsedIsEndMinusStart"], False, True, False,
                 {"Clk(c, n)": "100 - n"})
 
+        # the documented / natural readings that the code does NOT follow (named deviations of the specification):
+        # behaviours exported under such a reading must be refuted by the real classes
+        readings = {
+            "LivePlotting draws the records of an ObservableEvaluator (class docstring)": (
+                ex.submit(tlc_model, [cfgset("", epochs="2", cbs=seq(EV(1, "obs"), PL(1, "FALSE", 0), R))], True, ["TypeOK"],
+                          False, True, False, {"DevObsRecordsRaise": "FALSE"}),
+                lambda b: any(h["draw"] for h in b["ev"])),
+            "a re-used Timer announces the stop of every fit (Timer docstring read per fit)": (
+                ex.submit(tlc_model, [cfgset("", epochs="1", runs="2", cbs=seq(R, TV))], True, ["TypeOK", "PerFitNotice"],
+                          False, False),
+                lambda b: sum(1 for h in b["ev"] for ln in h["say"] if ln["m"] == "term") == 2),
+        }
+        if not quick:
+            readings["total_epochs keeps the x-axis at (0, total_epochs) for the whole fit"] = (
+                ex.submit(tlc_model, [cfgset("", epochs="2", cbs=seq(EV(1), PL(1, "FALSE", 2), R))], True, ["TypeOK"],
+                          False, True, False, {"DevClearForgetsXlim": "FALSE"}),
+                lambda b: any(h["draw"] for h in b["ev"]))
+            readings["a redraw without any evaluator record shows an empty curve"] = (
+                ex.submit(tlc_model, [cfgset("", epochs="0", cbs=seq(R, EV(1), PL(1, "FALSE", 0)))], True, ["TypeOK"],
+                          False, True, False, {"DevEmptyHistoryRaises": "FALSE"}),
+                lambda b: any(h["draw"] for h in b["ev"]))
+
         # ---- code -> spec: random sessions, recorded while TLC runs
         n_tr = 32 if quick else 600
         jobs = [["trace", copy.deepcopy(c), sorted(pl), False, seed] for c, pl in donor_sessions()]
@@ -1314,6 +1337,21 @@ def _run(chk, tier, seed, quick, rng, info, pool):
         chk.add_tlc(r_wide, "AuxCallbacks.tla: wide space, invariants only")
         if r_wide.violation:
             chk.violation(K + "spec:wide:" + str(r_wide.violation), dict(tlc=r_wide.raw[-3000:]))
+        refuted = {}
+        for what, (f, relevant) in readings.items():
+            r = f.result()
+            chk.add_tlc(r, "reading not followed by the code: " + what)
+            if r.violation:
+                raise common.MachineryError("the variant specification is inconsistent (%s): %s" % (what, r.violation))
+            cand = sorted((beh_from_export(x) for x in r.exports), key=lambda b: json.dumps(b, sort_keys=True))
+            cand = [b for b in cand if relevant(b)][:6]
+            if not cand:
+                raise common.MachineryError("no behaviour exhibits the reading: " + what)
+            bads = [guarded(lambda b=b: replay(b, False)[0]) for b in cand]
+            refuted[what] = sum(1 for x in bads if x is not None)
+            control(chk, all(x is not None for x in bads), "the code agrees with a reading it is known not to follow: " + what)
+        info["readings_refuted_by_the_code"] = refuted
+        _tick(t0, "readings done")
         for what, f in ctl.items():
             r = f.result()
             chk.add_tlc(r, "control: " + what)
